@@ -168,6 +168,7 @@ class P(Prop):
         (M, "TV.C09.sentinel_cell", "T17: a candidate none of whose predecessors offers a value below 1e300 gets back-pointer 0 and value 1e300 + p (no hypothesis on the tables)"),
         (M, "TV.C09.infl_add", "+ with non-negative costs never decreases a running value (ordered additive commutative monoid; WithTop: +inf is a non-negative cost)"),
         (M, "TV.C09.decoded_optimal_feasible_add", "T15 for + and non-negative costs over any ordered additive commutative monoid (N, Q>=0, WithTop Q, ENNReal)"),
+        (M, "TV.C09.estimate_optimal_feasible", "T6b: end to end without PathsBelow (ordered additive commutative monoid with negation, e.g. the extended reals): non-negative cost tables of THIS call (+inf allowed) and some candidate sequence below the sentinel: hmm_inference holds candidates, hmm_cost at EVERY epoch the decoded prefix cost, the decoded sequence is minimal among all candidate sequences"),
         (M, "TV.C09.impossible_avoided", "T18: costs in WithTop (top = impossible transition / emission, -log 0): if some candidate sequence is below the sentinel the decoded sequence uses NO impossible entry and is the cheapest of all sequences"),
         (M, "TV.C09.argmin_first_nan", "T19: numpy.argmin on a column that holds a NaN returns the index of the FIRST NaN whatever the other entries (any type with < and ==; the model's argmin? is numpy's loop)"),
         ("TracklibVerif.Lemmas.ViterbiSentinel", "TV.Viterbi.decoded_no_sentinel_hyp", "function style: minimal last entry below the sentinel iff some sequence is; then back-pointer path = prefix costs and optimal; else the recorded value is >= the sentinel"),
